@@ -252,6 +252,41 @@ def tebdRun [Mul M] (e : TebdEnv M S R) (startStep : Int) (x0 : S) (nsteps : Nat
   (iter (execTebd e tebdComputeStep) nsteps
     (execTebd e tebdInitialize ⟨startStep, x0, []⟩)).recd
 
+/-! ### object lifetime: a `PtTebd` object and the `ChainControl` it refers to -/
+
+/-- what the user does after `PtTebd(..., chain_control=c, start_step=s0)` was constructed:
+    register a further control on the (shared) chain control object — directly or through
+    `tebd.chain_control` — or call `compute(end_step)` -/
+inductive TebdHistOp (M : Type) where
+  | add (op : M) (site : Nat) (step : Int) (post : Bool)
+  | compute (endStep : Int)
+
+/-- the chain control object (shared by reference) and the PtTebd computation state
+    (`none` = not yet initialised, `self._step is None`) -/
+structure TebdObj (M S R : Type) where
+  ctl : ChainCtl M
+  st : Option (TebdState S R)
+
+/-- `compute(end_step)`: `initialize()` if fresh, then `while step < end_step: compute_step()`;
+    every control look-up reads the chain control as it is NOW -/
+def tebdHistStep [Mul M] (base : TebdEnv M S R) (startStep : Int) (x0 : S)
+    (o : TebdObj M S R) : TebdHistOp M → TebdObj M S R
+  | .add op site step post => { o with ctl := o.ctl.add op site step post }
+  | .compute endStep =>
+    let env : TebdEnv M S R := { base with ctl := o.ctl }
+    let s := match o.st with
+      | none => execTebd env tebdInitialize ⟨startStep, x0, []⟩
+      | some s => s
+    { o with st := some (iter (execTebd env tebdComputeStep) (endStep - s.step).toNat s) }
+
+/-- the results recorded after a history of operations on an object constructed with chain
+    control `c0` -/
+def tebdHistory [Mul M] (base : TebdEnv M S R) (c0 : ChainCtl M) (startStep : Int) (x0 : S)
+    (ops : List (TebdHistOp M)) : List R :=
+  match (ops.foldl (tebdHistStep base startStep x0) ⟨c0, none⟩).st with
+  | none => []
+  | some s => s.recd
+
 /-! ### executable instance: small rational matrices with a formal identity -/
 
 inductive DMat where
